@@ -12,7 +12,7 @@ CHECKS = {
             'Every generated (document, path expression, context item, tree library, root kind) is evaluated by the four parser '
             'versions through the token API (node identity kept) and compared with a reference XDM axis/predicate model, with '
             'libxml2 where it applies (arbitration: a model mismatch only counts when libxml2 agrees with the model), and the public '
-            'select/iter_select/Selector forms are compared with the documented projection. Held on the cases executed.',
+            'select/iter_select/Selector forms (document, element, comment and PI context items) are compared with the documented projection; chains of 1100-2600 nested elements have node lists known by construction. Held on the cases executed.',
             'Trusted: rv/models/xdm.py, libxml2 via lxml 6.1.3; absolute paths only on trees with a document node; namespace-node order unconstrained.',
             'DESIGN.md section 4 (C01)'),
     'C02': ('exploration',
@@ -27,7 +27,7 @@ CHECKS = {
     'C03': ('exploration',
             'outcome-classifying runtime monitor at the API boundary + parser-state invariant after every parse + long-lived-vs-fresh parser history oracle + CPU-time watchdog',
             'A fixed corpus (valid seeds, token-level mutations, random strings, an ill-typed call matrix over every registered function and an '
-            'ill-typed operator matrix) is parsed and evaluated by the four parser versions in four dynamic contexts; every outcome is classified '
+            'ill-typed operator matrix) is parsed and evaluated by the four parser versions in six dynamic contexts (ElementTree and lxml documents, the latter with a default namespace); every outcome is classified '
             '(value | ElementPathError with code | any other exception, keyed by type and innermost library frame | CPU budget exceeded); after '
             'every parse() the parser instance must equal its post-__init__ state; one long-lived parser per history must answer every source '
             'like a fresh parser.',
@@ -86,7 +86,8 @@ CHECKS = {
             'Each generated call of the string functions named in the property (substring with .5/INF/NaN positions, translate, '
             'normalize-space, case mapping, compare/codepoint-equal, codepoints functions, URI escaping, collation variants) is '
             'compared with a direct transcription of the F&O definitions; XPath 1.0 calls are compared with libxml2 (only when '
-            'libxml2 and the XPath 1.0 model agree); round-trip and reconstruction laws are checked engine-against-engine.',
+            'libxml2 and the XPath 1.0 model agree); round-trip and reconstruction laws are checked engine-against-engine; one parsed call '
+            'is evaluated over several argument sets (some arguments literal) and must answer like fresh parses.',
             'Trusted: rv/models/strings.py, CPython str case mapping, libxml2; only codepoint and html-ascii collations can run (C locale only).',
             'DESIGN.md section 4 (C09)'),
     'C10': ('exploration',
